@@ -289,6 +289,48 @@ func (g *genCtx) drawModule(name string, label string) *Module {
 			m.Keys = append(m.Keys, fmt.Sprintf("key[%s, %s, %s];", sname, st.Fields[0].Name, st.Fields[1].Name))
 		}
 	}
+	// a "container matrix" struct: every container kind holding every kind of inner value
+	// (byte vectors, vectors, maps, strings, structs), so that each program has the nested
+	// combinations a drawn type reaches only rarely (e.g. map<K, vector<byte>>)
+	if g.pick(2, label+".matrix") == 0 {
+		sname := fmt.Sprintf("SC%s", name)
+		st := &rc.StructJ{Module: name, Name: sname}
+		bytesT := func() *rc.TypeJ {
+			return &rc.TypeJ{K: "vector", Elem: &rc.TypeJ{K: []string{"byte", "unsigned byte"}[g.pick(2, label+".mbyte")]}}
+		}
+		str := func() *rc.TypeJ { return &rc.TypeJ{K: "string"} }
+		inner := []func() *rc.TypeJ{
+			bytesT,
+			func() *rc.TypeJ {
+				return &rc.TypeJ{K: "vector", Elem: &rc.TypeJ{K: scalarKinds[g.pick(len(scalarKinds), label+".mvs")]}}
+			},
+			func() *rc.TypeJ {
+				return &rc.TypeJ{K: "map", Key: &rc.TypeJ{K: keyKinds[g.pick(len(keyKinds), label+".mmk")]}, Elem: &rc.TypeJ{K: scalarKinds[g.pick(len(scalarKinds), label+".mms")]}}
+			},
+			str,
+		}
+		tag := g.pick(3, label+".mtag0")
+		for i, in := range inner {
+			for j, outer := range []string{"vector", "map"} {
+				if g.pick(4, label+".mskip") == 0 {
+					continue
+				}
+				f := &rc.FieldJ{Name: fmt.Sprintf("c%d%d", i, j), Tag: tag, Require: g.pick(3, label+".mreq") == 0}
+				if outer == "vector" {
+					f.Type = &rc.TypeJ{K: "vector", Elem: in()}
+				} else {
+					f.Type = &rc.TypeJ{K: "map", Key: &rc.TypeJ{K: keyKinds[g.pick(len(keyKinds), label+".mok")]}, Elem: in()}
+				}
+				st.Fields = append(st.Fields, f)
+				tag += 1 + g.pick(3, label+".mgap")
+			}
+		}
+		if len(st.Fields) > 0 {
+			m.Structs = append(m.Structs, st)
+			m.DeclOrder = append(m.DeclOrder, seq(len(st.Fields)))
+			g.structs = append(g.structs, name+"."+sname)
+		}
+	}
 	// a "boundary" struct: optional members just below the extended-tag boundary followed
 	// by members with tags 15, 16 and 255 (two-byte heads); declared last so that the
 	// interfaces below tend to use it
